@@ -11,6 +11,7 @@ import (
 	"go/constant"
 	"go/token"
 	"go/types"
+	"os"
 	"sort"
 	"strings"
 
@@ -42,13 +43,15 @@ const (
 )
 
 type stateAnalysis struct {
-	p        *Program
-	owner    string // struct name owning the state field, e.g. "Conn"
-	pkg      string // package path suffix
-	touches  map[*ssa.Function]bool
-	writes   map[*ssa.Function]bool
-	memo     map[string]*stateSummary
-	inflight map[string]bool
+	p           *Program
+	owner       string // struct name owning the state field, e.g. "Conn"
+	pkg         string // package path suffix
+	touches     map[*ssa.Function]bool
+	writes      map[*ssa.Function]bool
+	memo        map[string]*stateSummary
+	provisional map[string]*stateSummary
+	memoLog     []string
+	inflight    map[string]bool
 	// observers
 	onCall func(fn *ssa.Function, call ssa.CallInstruction, s stateSet)
 	// visited call sites with the union of states over all contexts
@@ -175,12 +178,36 @@ func (a *stateAnalysis) analyze(fn *ssa.Function, in stateSet, bind binding) *st
 		return s
 	}
 	if a.inflight[key] {
-		return &stateSummary{out: allStates}
+		// recursion: use the provisional summary (least fixpoint iteration below)
+		if prov := a.provisional[key]; prov != nil {
+			return prov
+		}
+		return &stateSummary{out: 0}
 	}
 	a.inflight[key] = true
 	defer delete(a.inflight, key)
-	sum := a.run(fn, in, bind)
+	if a.provisional == nil {
+		a.provisional = map[string]*stateSummary{}
+	}
+	a.provisional[key] = &stateSummary{out: 0}
+	var sum *stateSummary
+	for iter := 0; iter < 8; iter++ {
+		mark := len(a.memoLog)
+		sum = a.run(fn, in, bind)
+		if sum.out == a.provisional[key].out {
+			break
+		}
+		// results memoised during this iteration relied on a provisional
+		// summary that has just changed: forget them
+		for _, k := range a.memoLog[mark:] {
+			delete(a.memo, k)
+		}
+		a.memoLog = a.memoLog[:mark]
+		a.provisional[key] = sum
+	}
+	delete(a.provisional, key)
 	a.memo[key] = sum
+	a.memoLog = append(a.memoLog, key)
 	return sum
 }
 
@@ -268,7 +295,30 @@ func (a *stateAnalysis) run(fn *ssa.Function, in stateSet, bind binding) *stateS
 			// dynamic or external call: closures passed to it may run now
 			a.enterClosuresPassed(i, s, bind)
 			if a.dynMayWrite(fn, i) {
-				return allStates
+				// resolved callees with bodies are analysed; anything else is ⊤
+				out := stateSet(0)
+				node := a.p.VTA().Nodes[fn]
+				for _, e := range node.Out {
+					if e.Site != i {
+						continue
+					}
+					cal := e.Callee.Func
+					if cal == nil || cal.Blocks == nil || !inModule(cal) {
+						if debugState {
+							println("TOP at", a.p.pos(i.Pos()), "in", fnKey(fn), "callee", cal.String())
+						}
+						return allStates
+					}
+					if !a.touches[cal] {
+						out |= s
+						continue
+					}
+					out |= a.analyze(cal, s, a.bindArgs(cal, i, bind)).out
+				}
+				if out == 0 {
+					return allStates
+				}
+				return out
 			}
 			return s
 		}
@@ -756,3 +806,5 @@ func (a *stateAnalysis) freshIn(v ssa.Value, b *ssa.BasicBlock) bool {
 	}
 	return true
 }
+
+var debugState = os.Getenv("VERIF_DEBUG_STATE") != ""
